@@ -269,6 +269,7 @@ def _uncon(modname, clsname, nobj):
     def run(par, rng):
         mod = __import__("pybrops.opt.algo." + modname, fromlist=[clsname])
         A = getattr(mod, clsname)
+        warnings.filterwarnings("ignore", message="A class named")
         from pybrops.core.random.prng import global_prng
         algo = A(ngen=par.get("ngen", 3), mu=8, lamb=8, M=1.5, rng=(rng if rng is not None else global_prng))
         w = numpy.arange(12) * 37 % 101 / 8.0
@@ -491,6 +492,9 @@ def gen_cases(rng, tier):
         c = {"kind": "seedmodel", "seed": s, "reqs": reqs, "sbits": rng.choice([64, 64, 64, 32, 128, 33, 1])}
         if rng.random() < 0.5: c["h"] = _rand_hist(rng)
         cases.append(c)
+    # boundary of the spawn range: with 1-2 seed bits an off-by-one in randint(0, 2**sbits-1) shows within a few draws
+    for i in range(6 if quick else 40):
+        cases.append({"kind": "seedmodel", "seed": rng.getrandbits(20), "reqs": [None, None, None, None, 8, None, 5], "sbits": 1 + i % 2})
     # --- reproducibility after seeding (rng = None everywhere): every component alone, then programs
     singles = CLEAN_RNG + GLOBAL_ONLY + FINDING_COMPS
     for rep in range(1 if quick else 6):
@@ -515,6 +519,7 @@ def gen_cases(rng, tier):
         prog = [{"comp": c, "par": _rand_par(rng, c)} for c in (rng.choice(CLEAN_RNG) for _ in range(k))]
         cases.append({"kind": "isolated", "rngkind": rng.choice(["Generator", "RandomState", "MT"]), "rseed": rng.getrandbits(31), "skip": 0,
                       "h1": _rand_hist(rng), "h2": [["py", 3], ["np", 5]] + _rand_hist(rng), "prog": prog})
+    rng.shuffle(cases)          # spread the heavy seed-model cases over the shards
     return cases
 
 # ---------------------------------------------------------------------------------------------- Coq side
@@ -539,10 +544,11 @@ def emit_case(case, out):
         reqs = [1 if n is None else n for n in case["reqs"]]
         if any(e == ["list"] for e in out["ents"]): return "false"
         ok_meta = out["py_gauss"] and out["py_ver"] == 3 and out["np_gauss"] == 0 and out["np_kind"] == "MT19937" and out["np_unmoved_by_spawn"]
-        return "(%s && MT.seed_scenario_agree %s %s %s %s %d%%nat %s %d%%nat %s %s %d%%nat)" % (
-            E.b(ok_meta), E.z(case["seed"]), E.lst(reqs, E.nat), E.z(case["sbits"]),
-            E.lst(out["py_key"], E.z), out["py_pos"], E.lst(out["np_key"], E.z), out["np_pos"],
-            E.lst2([[int(x) for x in l] for l in out["ents"]], E.z), E.lst(out["py_key2"], E.z), out["py_pos2"])
+        k2 = "pk" if out["py_key2"] == out["py_key"] else E.lst(out["py_key2"], E.z)
+        return "(let pk := %s in %s && MT.seed_scenario_agree %s %s %s pk %d%%nat %s %d%%nat %s %s %d%%nat)" % (
+            E.lst(out["py_key"], E.z), E.b(ok_meta), E.z(case["seed"]), E.lst(reqs, E.nat), E.z(case["sbits"]),
+            out["py_pos"], E.lst(out["np_key"], E.z), out["np_pos"],
+            E.lst2([[int(x) for x in l] for l in out["ents"]], E.z), k2, out["py_pos2"])
     names = E.lst(_static_names(case["prog"]), E.s)
     if k == "repro":
         A, B = out["A"], out["B"]
